@@ -252,6 +252,8 @@ type vfGen struct {
 	exprPath string // package path carried by every leaf expression identifier ("" = none)
 	pathField string // "" = every expression leaf carries exprPath; "T.F" = only leaves of that field
 	made     []*Q.Ident // identifiers created with a package path (independent of any tree walk)
+	stmtLeaf int // which leaf statement stands for Stmt children: 0 ExprStmt, 1 implicit EmptyStmt, 2 explicit EmptyStmt, 3 BranchStmt
+	exprLeaf int // which leaf expression stands for Expr children: 0 Ident, 1 BasicLit, 2 Ellipsis without element
 	n        int
 }
 
@@ -353,6 +355,12 @@ func (g *vfGen) leafExpr() Q.Expr {
 }
 
 func (g *vfGen) leafExprAt(typ, field string) Q.Expr {
+	switch g.exprLeaf {
+	case 1:
+		return &Q.BasicLit{Kind: token.INT, Value: vfOpaque(g.nm("lit"), "1")}
+	case 2:
+		return &Q.Ellipsis{}
+	}
 	id := g.ident()
 	if g.pathField == "" || g.pathField == typ+"."+field {
 		id.Path = g.exprPath
@@ -362,7 +370,17 @@ func (g *vfGen) leafExprAt(typ, field string) Q.Expr {
 	}
 	return id
 }
-func (g *vfGen) leafStmt() Q.Stmt { return &Q.ExprStmt{X: g.ident()} }
+func (g *vfGen) leafStmt() Q.Stmt {
+	switch g.stmtLeaf {
+	case 1:
+		return &Q.EmptyStmt{Implicit: true}
+	case 2:
+		return &Q.EmptyStmt{}
+	case 3:
+		return &Q.BranchStmt{Tok: token.BREAK}
+	}
+	return &Q.ExprStmt{X: g.ident()}
+}
 func (g *vfGen) leafDecl() Q.Decl {
 	return &Q.GenDecl{Tok: token.VAR, Specs: []Q.Spec{&Q.ValueSpec{Names: []*Q.Ident{g.ident()}, Type: g.ident()}}}
 }
@@ -393,7 +411,7 @@ func (g *vfGen) leafSpec() Q.Spec { return &Q.ValueSpec{Names: []*Q.Ident{g.iden
 		w("%q, ", n)
 	}
 	w("}\n\n")
-	w("type vfNodeInfoT struct {\n\tExprFields []string // fields holding an Expr or a list of Expr\n\tPoints   []string\n\tOptional []string // optional child fields (documented \"or nil\")\n\tChildren []string // node-valued fields (single)\n\tLists    []string // list-valued fields\n\tIface    string\n}\n\n")
+	w("type vfNodeInfoT struct {\n\tStmtFields []string // fields holding a Stmt or a list of Stmt\n\tExprFields []string // fields holding an Expr or a list of Expr\n\tPoints   []string\n\tOptional []string // optional child fields (documented \"or nil\")\n\tChildren []string // node-valued fields (single)\n\tLists    []string // list-valued fields\n\tIface    string\n}\n\n")
 	w("var vfNodeInfo = map[string]vfNodeInfoT{\n")
 	for _, t := range types {
 		w("\t%q: {Points: []string{", t.Name)
@@ -415,6 +433,12 @@ func (g *vfGen) leafSpec() Q.Spec { return &Q.ValueSpec{Names: []*Q.Ident{g.iden
 		w("}, Lists: []string{")
 		for _, f := range t.Fields {
 			if f.Kind == "list" {
+				w("%q, ", f.Name)
+			}
+		}
+		w("}, StmtFields: []string{")
+		for _, f := range t.Fields {
+			if (f.Kind == "iface" || f.Kind == "list") && f.Elem == "Stmt" {
 				w("%q, ", f.Name)
 			}
 		}
